@@ -77,7 +77,8 @@ CHECKS["C05"] = ("HttpProtocol.tla, TraceHttpProtocol.tla",
     "request variants x interfaces x zero-copy x faults) validated event by event by TLC against TraceHttpProtocol.tla",
     "The recogniser is the property: a recorded sequence that TLC cannot consume, or that is incomplete after a normal "
     "return, is a violation. Faults: send() failing at every position, disconnect after every send, producer exception at "
-    "every item, server close() after every item.",
+    "every item, server close() after every item. Also: hostile header / cookie text given to constructors, file names that are not "
+    "legal header text, every recipe as WebSocket denial response, and no exception without an injected fault.",
     "Trusted: TLC, harness/protocol.py (turns raw messages into typed event records), servers.py.",
     "DESIGN.md 5 C05")
 
@@ -103,7 +104,8 @@ CHECKS["C10"] = ("RequestBody.tla",
     "TLC exhaustive model check of user tasks and the shared body/json/form futures of cached_property under every "
     "interleaving (OnceOnly, BodyExact, CacheStable, ErrorsDocumented); the model's terminal states give, per scenario, the set "
     "of admissible outcome vectors; every scenario run on the real Request (ASGI under virtual time, all task orders x 4 message "
-    "timings; WSGI sequentially) must produce one of them, plus value/identity clauses on what the accessors returned",
+    "timings; WSGI sequentially) must produce one of them, plus value/identity clauses on what the accessors returned; WSGI: "
+    "wsgi.input shorter / longer than CONTENT_LENGTH (a vanished client, a kept-alive connection)",
     "All access programs up to length 2 (selected 3) for one task, pairs (thorough: triples) of concurrent tasks, 1-2 chunks, a "
     "disconnect at every position, three content types. The model over-approximates asyncio's FIFO scheduling, so a real outcome "
     "outside the admissible set is a violation.",
@@ -222,7 +224,8 @@ CHECKS["C12"] = ("Robust.tla",
     "TLC enumerates (input channel, fragment sequence, entry point) of Robust.tla and fixes the class-level oracle "
     "OutcomeAllowed; every enumerated case concretised and given to the real accessor / application on both interfaces, "
     "the escaping exception type and raising frame classified; random Latin-1 noise and bit-flipped / truncated bodies sampled "
-    "with the same oracle",
+    "with the same oracle; cross-channel enumeration path x Host through the applications that build URLs from both; every codec "
+    "name Python knows as declared charset; every component (and repr) of the URLs the accessors return is read",
     "14 channels (path, query, Host, Cookie, Accept, Content-Type, Content-Length, Date, Referer, Range, If-Range, "
     "If-None-Match, If-Modified-Since, body) x fragment sequences of length <= 2 (thorough 3) x entry points. Reduced strength: "
     "enumeration and a class-level oracle, no state-space insight; 'all bytes a client can send' is sampled, not decided.",
